@@ -99,6 +99,9 @@ def apply_impl(c, holders, op):
       _try(lambda k=k: c[k])
       _try(lambda k=k: getattr(c, k))
     _try(c._asdict)  # pylint: disable=protected-access
+  elif kind == 'snap':
+    # an observation from inside a wrapped function (e.g. after a nested wrapped call has returned)
+    IMPL_SNAPS.append({k: (type(v).__name__, repr(v)) for k, v in c._asdict().items()})  # pylint: disable=protected-access
   elif kind == 'sar':
 
     def body():
@@ -114,6 +117,9 @@ def apply_impl(c, holders, op):
     assert r == 'ret'
   else:
     raise AssertionError(op)
+
+
+IMPL_SNAPS = []
 
 
 def impl_state(c):
@@ -179,8 +185,16 @@ def run_history(init_flags, hist):
   holders = {}
   viols = []
   for i, op in enumerate(hist):
+    del IMPL_SNAPS[:]
+    del m.snaps[:]
     r_impl = _try(lambda: apply_impl(c, holders, op))
     r_ref = _try(lambda: m.apply(op))
+    for got, (decl, exp) in zip(list(IMPL_SNAPS), list(m.snaps)):
+      got_decl = {k: v for k, v in got.items() if k in decl}
+      if got_decl != exp:
+        viols.append(('mid-body-read', 'op %r: inside the wrapped function _asdict() showed %r, model %r' % (op, got_decl, exp)))
+    if len(IMPL_SNAPS) != len(m.snaps):
+      viols.append(('mid-body-read', 'op %r: %d observations inside the wrapped function, model %d' % (op, len(IMPL_SNAPS), len(m.snaps))))
     last = i == len(hist) - 1
     if r_impl[0] != r_ref[0] or (r_impl[0] == 'err' and r_impl != r_ref):
       if last:
@@ -226,6 +240,9 @@ def alphabet(tier):
       ['sar', [], [['load', [['a', 9]], T, F, 'kw'], ['peek']], F],
       ['sar', [['a', 8]], [['peek']], T],
       ['sar', [], [['declare', 'b', 0], ['load', [['b', 4]], T, F, 'kw']], T],
+      # a wrapped function calling another wrapped function, then looking at the configuration again
+      ['sar', [['a', 8]], [['sar', [['a', 1]], [['load', [['b', 4]], T, F, 'kw']], F], ['snap']], F],
+      ['sar', [], [['snap'], ['sar', [['b', 6]], [['snap']], F], ['snap'], ['load', [['a', 3]], T, F, 'kw'], ['snap']], F],
   ]
   if tier == 'thorough':
     ops += [
